@@ -192,7 +192,7 @@ Section Facts.
       Forall (site_ok cfg) qh /\
       (qh = [] \/ exists x, qh = [x] /\ fst x <> [] /\ r = HOk true /\ exc h' = exc h).
 
-  Ltac post_nil q := exists q, []; hsimpl; rewrite ?app_nil_r; repeat split; auto.
+  Ltac post_nil q := exists q, []; hsimpl; rewrite ?app_nil_r, <- ?app_assoc; repeat split; auto.
   Ltac post_one q x :=
     exists q, [x]; hsimpl; cbn [app]; rewrite <- ?app_assoc, ?app_nil_r; repeat split; auto;
     lazymatch goal with
@@ -208,11 +208,12 @@ Section Facts.
     all: try match goal with |- context [is_nil (hq ?y)] => destruct (is_nil (hq y)); hsimpl end.
     all: hsimpl.
     all: repeat split; auto.
+    all: rewrite <- ?app_assoc.
     all: lazymatch goal with
-         | |- exists qp qh, (buffer ?h ++ ?q) ++ [_] = _ /\ _ /\ hq ?h ++ [?x] = _ /\ _ => post_one q x
-         | |- exists qp qh, buffer ?h ++ [_] = _ /\ _ /\ hq ?h ++ [?x] = _ /\ _ => post_one (@nil bytes) x
-         | |- exists qp qh, buffer ?h ++ ?q = _ /\ _ => post_nil q
-         | |- exists qp qh, buffer ?h = _ /\ _ => post_nil (@nil bytes)
+         | |- exists qp qh, _ /\ pq ?h ++ ?q = _ /\ hq ?h ++ [?x] = _ /\ _ => post_one q x
+         | |- exists qp qh, _ /\ pq ?h = _ /\ hq ?h ++ [?x] = _ /\ _ => post_one (@nil bytes) x
+         | |- exists qp qh, _ /\ pq ?h ++ ?q = _ /\ hq ?h = _ /\ _ => post_nil q
+         | |- exists qp qh, _ /\ pq ?h = _ /\ hq ?h = _ /\ _ => post_nil (@nil bytes)
          end.
   Qed.
 
@@ -844,7 +845,7 @@ Section Facts.
                   | H : negb _ = false |- _ => apply negb_false_iff in H
                   end.
       all: hsimpl; rewrite ?is_nil_app_cons; hsimpl; try match goal with |- context [is_nil (hq ?y)] => destruct (is_nil (hq y)) end; hsimpl.
-      all: rewrite ?B; repeat split; auto; try congruence; try (intros; discriminate).
+      all: rewrite ?is_complete_sbs, ?B; repeat split; auto; try congruence; try (intros; discriminate).
   Qed.
 
   Lemma after_data_orc_ok h2 r : orc_ok h2 -> orc_ok (after_data h2 r).
